@@ -452,6 +452,10 @@ func (r *row) FindValuesAtPath(path string) ([]Value, bool) {
 }
 
 func (r *row) SetValue(key string, val Value) Row {
+	if val == nil {
+		val = NewValueAuto(nil)
+	}
+
 	if _, ok := r.m[key]; !ok {
 		r.keys[key] = r.l.PushBack(key)
 	}
